@@ -75,7 +75,7 @@ def unit_specs(tier):
               ["-std=c++17", "-UNDEBUG", "-I" + os.path.join(VERIF, "fixtures")],
               [os.path.join(VERIF, "fixtures")])]
     if tier == "thorough":
-        for vp in (1, 2, 3):
+        for vp in (1, 2, 3, 4):
             units.append(("inst_vp%d" % vp, drv, inc + ["-DVP=%d" % vp], [os.path.join(REPO, "gmlc")]))
         units.append(("inst_vp2_tripwire", drv, inc + ["-DVP=2", "-DENABLE_TRIPWIRE"],
                       [os.path.join(REPO, "gmlc")]))
